@@ -25,6 +25,8 @@
        the workers are back in select and no tick is pending       (cache_steps_all_complete)
      - the old send order (sendJob under the shard mutex) reaches a deadlock with parallel = 1,
        jobChanSize = 1                                        (cache_steps_orig_deadlock_refuted)
+     - future ids never dangle: a waiter always waits for a future of the arena
+                                                                       (cache_steps_waiters_valid)
    "Loaders return" is in the model (the step that ends a loader is always enabled, its result is
    arbitrary).  What is NOT proved and stays an assumption: weak fairness of the Go scheduler
    (an enabled goroutine eventually runs), so that "finite maximal runs" are what happens; real
@@ -82,6 +84,18 @@ Theorem cache_steps_orig_deadlock_refuted :
 Proof. exact csl_orig_deadlock. Qed.
 Print Assumptions cache_steps_orig_deadlock_refuted.
 
+(* the model lets a waiter of a DANGLING future id pass ([csl_complete] answers true for an id
+   outside the arena); this never decides anything: in every reachable state (any send order) a
+   client parked before wg.Wait() waits for a future of the arena *)
+Theorem cache_steps_waiters_valid :
+  forall cfg m0 parallel progs history s i t x,
+    csl_mvalid m0 ->
+    csl_run cfg (csl_init_on m0 parallel progs) history = Some s ->
+    nth_error (csl_cl s) i = Some t -> lt_pc t = CslGFW x ->
+    exists y, c_get (c_futs (csl_m s)) x = Some y.
+Proof. exact csl_waiters_valid. Qed.
+Print Assumptions cache_steps_waiters_valid.
+
 (* non-vacuity: the same programs, tick and select choice under the current order: the witness
    schedule is executable (client 1 leaves the critical section before sendJob), nothing is stuck
    there, and a completion of the run ends quiet with nothing pending; the measure of the start
@@ -93,8 +107,8 @@ Example c06_steps_nonvacuous :
   option_map (csl_stuck cfg) (csl_run cfg s0 csl_orig_witness) = Some false /\
   option_map (fun s => (csl_pending s, csl_quiet s))
     (csl_run cfg s0 (csl_orig_witness ++ [CslC 1; CslC 2; CslC 2; w; CslC 2; w; w; w; w; w; w; CslC 1; w; w; w; w; CslC 2; w; w; w; w; w; w; w])) = Some (false, true) /\
-  csl_measure cfg s0 = 45 /\ csl_mem_ok c_init = true.
-Proof. vm_compute. repeat split. Qed.
+  csl_measure cfg s0 = 45 /\ csl_mem_ok c_init = true /\ csl_mvalid c_init.
+Proof. split; [|split; [|split; [|split]]]; try (vm_compute; reflexivity). exact csl_mvalid_init. Qed.
 
 (* ------------------------------------------------------------------ PART 2: the protocol abstraction *)
 
